@@ -48,9 +48,26 @@ namespace EgVerif.SessionQueue
 open EgVerif.Topic (alGet alSet alErase)
 open EgVerif.Gen.FactsC15IR
 
-/-- `Session.getPacketFromMsg`: the packet carries `nextID`, which then steps modulo 65 536. -/
+theorem getPacket_regenerated_from_source_loop (s : Sess) (m : Msg) (pid pq : Nat) (pt pp : String) :
+    ∀ (fuel : Nat) (next : Nat) (n : Int),
+    getPacketIR_loop1 s m s.pending next pid pq pt pp () n fuel = .inr (skipPending fuel s.pending next) := by
+  intro fuel
+  induction fuel with
+  | zero => intro next n; rfl
+  | succ f ih =>
+    intro next n
+    cases hg : alGet next s.pending with
+    | none => simp [getPacketIR_loop1, lookupMsg, skipPending, hg]
+    | some v => simp [getPacketIR_loop1, lookupMsg, skipPending, hg, ih]
+
+/-- `Session.getPacketFromMsg` (repaired, fix `C15-packet-id-skip-pending`): ids that are still keys of `pending`
+are skipped (bounded loop of 65 536 steps), the packet carries the id found, the counter steps past it. -/
 theorem getPacket_regenerated_from_source (s : Sess) (m : Msg) :
-    getPacketIR s m = (pkt s.nextID m, (s.nextID + 1) % idMod) := rfl
+    getPacketIR s m = (pkt (freeId s.pending s.nextID) m, (freeId s.pending s.nextID + 1) % idMod) := by
+  unfold getPacketIR
+  dsimp only
+  rw [getPacket_regenerated_from_source_loop]
+  rfl
 
 /-- `Session.publish` -/
 theorem publish_regenerated_from_source (online full : Bool) (m : Msg) (s : Sess) :
@@ -69,6 +86,18 @@ theorem publish_regenerated_from_source (online full : Bool) (m : Msg) (s : Sess
 
 /-- `Session.puback` -/
 theorem puback_regenerated_from_source (i : Nat) (s : Sess) : pubackIR i s = puback i s := rfl
+
+/-- `processPublish` (client.go): a PUBACK carrying the inbound packet's id is written iff its QoS is 1 — the
+PUBACK part of `onPublish` once the publish limiter admitted the packet and the pipeline did not object -/
+theorem processPublish_regenerated_from_source (qos i : Nat) :
+    processPublishIR qos i = (onPublish true .ok qos i).puback.toList ∧
+    processPublishIR qos i = (onPublish true .notConfigured qos i).puback.toList := by
+  unfold processPublishIR onPublish
+  by_cases h0 : qos = 0
+  · subst h0; simp
+  · by_cases h1 : qos = 1
+    · subst h1; simp
+    · simp [h0, h1]
 
 theorem doResend_regenerated_from_source_loop (online : Bool) (s : Sess) (P : List (Nat × Msg)) (Q : List Nat)
     (n : Nat) (out : List Packet) (client : Option Unit) :
